@@ -85,7 +85,11 @@ def main():
         old = json.load(open(rp))
     hist = old.get("history", [])
     hist.append(res)
-    json.dump(dict(latest=res, history=hist[-6:]), open(rp, "w"), indent=1)
+    # the first evaluation (what the checks saw when the change was imported) and the demo confirmation are kept for good;
+    # the rolling history keeps the last six evaluations
+    first = old.get("first") or hist[0]
+    demo = bool(old.get("demo_confirmed")) or any(h.get("demo_ok") for h in hist)
+    json.dump(dict(latest=res, first=first, demo_confirmed=demo, history=hist[-6:]), open(rp, "w"), indent=1)
     print("caught by:", res["caught_by"])
     return 0
 
